@@ -18,7 +18,13 @@ Base == [ir |-> FALSE,
          ms |-> << M("m1", "ref", <<"i64">>, "i64"),
                    M("m2", "mut", <<"u8", "u64">>, "u64"),
                    M("m3", "ref", <<>>, "res"),
-                   M("m4", "own", <<"u32">>, "u32") >>]   \* by-value receiver: the only slot that takes the container by value
+                   M("m4", "own", <<"u32">>, "u32"),      \* by-value receiver: the only slot that takes the container by value
+                   \* arguments and returns of the library's own generic wrapper types: the element type is C-visible
+                   \* (callback function signature, iterator output slot, slice/vector element, option/tuple payload)
+                   M("m5", "ref", <<"cb_u32">>, "op_u32"),
+                   M("m6", "mut", <<"sl_u32", "it_u32">>, "vec_u32"),
+                   M("m7", "ref", <<"op_u32", "vec_u32">>, "tup_u32"),
+                   M("m8", "ref", <<"box_u32", "tup_u32">>, "box_u32") >>]
 K == 1..Len(Base.ms)
 
 (* C-visible interface: exported methods only; `res` is Result<u64,()> whose C shape depends on int_result *)
@@ -29,7 +35,10 @@ Interface(d) == [k \in 1..Len(SelectSeq(d.ms, LAMBDA m : ~m.skip)) |->
 
 RemoveAt(s, k) == SubSeq(s, 1, k - 1) \o SubSeq(s, k + 1, Len(s))
 SwapAt(s, k) == [i \in DOMAIN s |-> IF i = k THEN s[k + 1] ELSE IF i = k + 1 THEN s[k] ELSE s[i]]
-OtherTy(t) == IF t = "u64" THEN "u32" ELSE "u64"
+Wrappers == {"cb", "it", "sl", "op", "vec", "tup", "box"}
+OtherTy(t) == IF t = "u64" THEN "u32"
+              ELSE IF \E w \in Wrappers : t = w \o "_u32" THEN (CHOOSE w \in Wrappers : t = w \o "_u32") \o "_u64"
+              ELSE "u64"
 OtherRecv(r) == IF r = "ref" THEN "mut" ELSE IF r = "mut" THEN "ref" ELSE "mut"
 N(base, k) == base \o "_" \o ToString(k)
 
@@ -39,13 +48,14 @@ EditSet ==
   { [name |-> "identical",     def |-> Base],
     [name |-> "documented",    def |-> [Base EXCEPT !.ms[1].doc = TRUE, !.ms[2].dflt = TRUE]],
     [name |-> "skipped_extra", def |-> [Base EXCEPT !.ms = @ \o << [M("hidden", "ref", <<>>, "i64") EXCEPT !.skip = TRUE] >>]],
-    [name |-> "add_method",    def |-> [Base EXCEPT !.ms = @ \o << M("m5", "ref", <<>>, "i64") >>]],
+    [name |-> "add_method",    def |-> [Base EXCEPT !.ms = @ \o << M("m_new", "ref", <<>>, "i64") >>]],
     [name |-> "add_method_front", def |-> [Base EXCEPT !.ms = << M("m0", "ref", <<>>, "i64") >> \o @]],
     [name |-> "int_result",    def |-> [Base EXCEPT !.ir = TRUE]] }
   \cup { [name |-> N("remove_method", k), def |-> [Base EXCEPT !.ms = RemoveAt(@, k)]] : k \in K }
   \cup { [name |-> N("rename_method", k), def |-> [Base EXCEPT !.ms[k].name = "mx"]] : k \in K }
   \cup { [name |-> N("reorder", k),       def |-> [Base EXCEPT !.ms = SwapAt(@, k)]] : k \in 1..(Len(Base.ms) - 1) }
   \cup { [name |-> N("arg_type", k),      def |-> [Base EXCEPT !.ms[k].args[1] = OtherTy(@)]] : k \in {j \in K : Len(Base.ms[j].args) > 0} }
+  \cup { [name |-> N("arg2_type", k),     def |-> [Base EXCEPT !.ms[k].args[2] = OtherTy(@)]] : k \in {j \in K : Len(Base.ms[j].args) > 1} }
   \cup { [name |-> N("ret_type", k),      def |-> [Base EXCEPT !.ms[k].ret = OtherTy(@)]] : k \in K }
   \cup { [name |-> N("receiver", k),      def |-> [Base EXCEPT !.ms[k].recv = OtherRecv(@)]] : k \in K }
   \cup { [name |-> N("add_arg", k),       def |-> [Base EXCEPT !.ms[k].args = @ \o <<"u8">>]] : k \in K }
